@@ -56,7 +56,7 @@ class AhbExpressionTransformer(Transformer):
 
     def MODAL_MARK(self, modal_mark: Token) -> ModalMark:
         """Returns the modal mark."""
-        return _str_to_modal_mark_mapping[modal_mark.value.upper()]
+        return _str_to_modal_mark_mapping[modal_mark.value.casefold().upper()]
 
     @v_args(inline=True)  # Children are provided as *args instead of a list argument
     def single_requirement_indicator_expression(
